@@ -144,6 +144,8 @@ class MatWorld(World):
     def gen_op(self, rng, frng):
         if self.actor == "simu":
             w = {"sim_load": 3, "sim_solve": 4, "sim_save": 2, "sim_set_iter": 0.7 if self.sim.Niter else 0, "sim_result": 1}
+            if self.sim.Niter == 0:
+                w["sim_save"] = 4  # a snapshot of the virgin state (saved before anything was integrated) to roll back to
         else:
             w = {"strain": 6, "commit": 3, "twice": 1, "tangent": 1.5, "retry_smaller": 0.7}
         names = sorted(w)
@@ -546,12 +548,22 @@ class MatWorld(World):
                 ctx.checked()
             self.sim_solved_since_commit = False
             self.sim_monotone_ok = True
+            self.__dict__.setdefault("sim_snaps", []).append({k: v.copy() for k, v in zo1.items() if np.any(v)})
             return "ok"
         if name == "sim_set_iter":
             if op["i"] >= sim.Niter:
                 return "skip"
             with ctx.sut():
                 sim.Set_Iter(op["i"])
+            snaps = self.__dict__.get("sim_snaps", [])
+            if op["i"] < len(snaps):
+                # the history continues from iteration i: the committed state is the one that was committed then
+                # (a virgin group may be absent or all-zero)
+                now = {str(k): np.array(v) for k, v in simlib.priv(sim, "_InElastic__zOld").items() if np.any(np.array(v))}
+                want = snaps[op["i"]]
+                if set(now) != set(want) or any(now[k].shape != want[k].shape or not np.array_equal(now[k], want[k], equal_nan=True) for k in want):
+                    raise Violation("rollback-keeps-later-history", f"after Set_Iter({op['i']}) the committed internal variables are not those committed by that Save_Iter (groups now {sorted(now)}, then {sorted(want)})")
+                ctx.checked()
             self._sim_load(self.load)
             self.sim_solved_since_commit = False
             self.sim_monotone_ok = True
